@@ -9,7 +9,7 @@ ID = "C11"
 LEAN_MODULES = ["Econf.Props.C11", "Econf.Props.Tie"]
 THEOREMS = ["Econf.C11_set", "Econf.C11_get", "Econf.C11_keys", "Econf.C11_groups", "Econf.C11_refused", "Econf.C11_brackets",
             "Econf.C11_get_set_same", "Econf.C11_get_set_other", "Econf.C11_keys_set", "Econf.C11_default", "Econf.C11_step",
-            "Econf.C11_refines", "Econf.C11_fresh", "Econf.Struct.tie_macros"]
+            "Econf.C11_refines", "Econf.C11_fresh", "Econf.Struct.tie_macros", "Econf.Struct.api_frames"]
 RULE = ("random sequences of create/set/get/get-with-default/list operations (1..60, thorough ..300) over a small universe of sections "
         "and keys incl. bracketed, empty and NULL ones, starting from econf_newKeyFile, econf_newIniFile, "
         "econf_newKeyFile_with_options and parsed files; every output is compared with a reference ordered map; distinct by op sequence")
